@@ -9,6 +9,7 @@ CONSTANTS
   RDelims <- ExpRDelims
   MaxParts = 1
   MaxOps = 1
+  MaxRetry = 1
   ContentSel = {1, 4, 6, 7, 9}
   ProfileSel = {1, 3}
   UseJson = TRUE
